@@ -44,6 +44,13 @@ def check(spec: dict) -> core.CaseResult:
     return dagprop.result(obs, findings, nt, labels, hang_is_violation=False, prop='C01')
 
 
+def judge_obs(case: dict, obs) -> core.CaseResult:
+    ex = oracles.expect_for(case, obs)
+    f = specs.features(case)
+    return core.CaseResult(findings=oracles.c01_return_value(case, obs, ex), nontrivial=f['n_closure'] >= 3 and (f['shared'] > 0 or f['pre_cached_proper']),
+                           labels=('exhaustive-small',), summary=None)
+
+
 def plan(tier: str) -> list[dict]:
     q = tier == 'quick'
     jobs = []
@@ -53,10 +60,13 @@ def plan(tier: str) -> list[dict]:
     for i in range(2):
         jobs.append({'engine': 'fork', 'n': 25 if q else 700, 'hashseed': 2 + i})
     jobs.append({'engine': 'spawn', 'n': 6 if q else 150, 'hashseed': 4})
-    return jobs
+    return list(jobs) + dagprop.exhaustive_jobs(tier, 4)
 
 
 def run_job(rec: core.Recorder, job: dict, seed: int) -> None:
+    if job['engine'] == 'exhaustive-small':
+        dagprop.run_exhaustive_job(rec, job, judge_obs, failing=False, cached=True)
+        return
     eng = job['engine']
     small = eng == 'spawn'
     strat = specs.dag_spec(max_nodes=5 if small else 10, backends=(eng,), dup_bias=(seed % 2 == 0))
